@@ -26,6 +26,7 @@ import (
 	"context"
 	"errors"
 	"fmt"
+	"hash/fnv"
 	"io"
 	"strconv"
 	"strings"
@@ -34,6 +35,7 @@ import (
 	"time"
 
 	"github.com/gocql/gocql"
+	"github.com/golang/snappy"
 	"verifharness/memcluster"
 	"verifharness/sess"
 	"verifharness/vh"
@@ -47,6 +49,7 @@ type reply struct {
 }
 
 type scen struct {
+	zbits    string // v<n>[n<nodes>]z<bits>: snappy negotiated; the k-th QUERY/EXECUTE answer is compressed iff bits[k mod len] = 1
 	op       string // sess | sessx
 	ver      int
 	nodes    int // 1..3 scripted nodes sharing the script (round-robin host selection)
@@ -105,6 +108,9 @@ func (s scen) String() string {
 	if s.nodes > 1 {
 		v += fmt.Sprintf("n%d", s.nodes)
 	}
+	if s.zbits != "" {
+		v += "z" + s.zbits
+	}
 	return fmt.Sprintf("%s %s %s %s %d %s %s %s", s.op, v, s.consumer, s.prefetch, s.pageSize, s.kind, showState(s.first), strings.Join(sc, ";"))
 }
 
@@ -114,7 +120,14 @@ func parseScen(op string) scen {
 		panic("bad sess op")
 	}
 	s := scen{op: w[0], consumer: w[2], prefetch: w[3], kind: w[5], first: parseState(w[6])}
-	vn := strings.SplitN(strings.TrimPrefix(w[1], "v"), "n", 2)
+	vtok := w[1]
+	if i := strings.Index(vtok, "z"); i >= 0 {
+		s.zbits, vtok = vtok[i+1:], vtok[:i]
+		if s.zbits == "" || strings.Trim(s.zbits, "01") != "" {
+			panic("bad compression bits")
+		}
+	}
+	vn := strings.SplitN(strings.TrimPrefix(vtok, "v"), "n", 2)
 	s.ver, _ = strconv.Atoi(vn[0])
 	s.nodes = 1
 	if len(vn) == 2 {
@@ -223,6 +236,15 @@ func runSess(sc scen, driverTimeout time.Duration) (answer string, spurious bool
 	ctx, cancel := context.WithCancel(context.Background())
 	defer cancel()
 	cols := []memcluster.Col{{Name: "v", Type: memcluster.TInt}}
+	// compression as a dimension (see walk.go): the k-th QUERY/EXECUTE answer carries the compression flag or not
+	send := func(req *memcluster.Request, k int, op byte, body []byte) {
+		if sc.zbits != "" && sc.zbits[k%len(sc.zbits)] == '1' {
+			f := &memcluster.Frame{Version: byte(sc.ver) | 0x80, Flags: 0x01, Stream: req.Stream, Op: op, Body: snappy.Encode(nil, body)}
+			req.Conn.WriteRaw(f.Encode(sc.ver))
+			return
+		}
+		req.Conn.Reply(req.Stream, op, body)
+	}
 	handle := func(req *memcluster.Request) {
 		switch req.Op {
 		case memcluster.OpPrepare:
@@ -276,7 +298,7 @@ func runSess(sc scen, driverTimeout time.Duration) (answer string, spurious bool
 				for i, v := range r.rows {
 					rows[i] = [][]byte{{byte(v >> 24), byte(v >> 16), byte(v >> 8), byte(v)}}
 				}
-				req.Conn.Reply(req.Stream, memcluster.OpResult, memcluster.RowsBody(cols, rows, r.state, o.skip))
+				send(req, k, memcluster.OpResult, memcluster.RowsBody(cols, rows, r.state, o.skip))
 			case "s":
 				var extra []byte
 				switch r.code {
@@ -287,16 +309,16 @@ func runSess(sc scen, driverTimeout time.Duration) (answer string, spurious bool
 				case memcluster.ErrWriteTO:
 					extra = memcluster.WriteTimeoutExtra(1, 1, 2, "SIMPLE")
 				}
-				req.Conn.Reply(req.Stream, memcluster.OpError, memcluster.ErrorBody(int32(r.code), "scripted", extra))
+				send(req, k, memcluster.OpError, memcluster.ErrorBody(int32(r.code), "scripted", extra))
 			case "u":
-				req.Conn.Reply(req.Stream, memcluster.OpError, memcluster.ErrorBody(memcluster.ErrUnprepared, "unprepared", memcluster.UnpreparedExtra(preparedID)))
+				send(req, k, memcluster.OpError, memcluster.ErrorBody(memcluster.ErrUnprepared, "unprepared", memcluster.UnpreparedExtra(preparedID)))
 			case "c":
 				req.Conn.Close()
 			case "t":
 			case "x":
 				cancel()
 			default:
-				req.Conn.Reply(req.Stream, memcluster.OpError, memcluster.ErrorBody(memcluster.ErrServer, "script exhausted", nil))
+				send(req, k, memcluster.OpError, memcluster.ErrorBody(memcluster.ErrServer, "script exhausted", nil))
 			}
 		default:
 			req.Conn.Reply(req.Stream, memcluster.OpResult, memcluster.VoidBody())
@@ -304,8 +326,22 @@ func runSess(sc scen, driverTimeout time.Duration) (answer string, spurious bool
 	}
 	for _, n := range cl.Nodes {
 		n.Handle = handle
+		if sc.zbits != "" {
+			n.Supported = map[string][]string{"CQL_VERSION": {"3.0.0"}, "COMPRESSION": {"snappy"}}
+			n.FrameHook = func(_ *memcluster.ServerConn, f *memcluster.Frame) bool {
+				if f.Flags&0x01 != 0 {
+					if b, err := snappy.Decode(nil, f.Body); err == nil {
+						f.Body, f.Flags = b, f.Flags&^0x01
+					}
+				}
+				return false
+			}
+		}
 	}
 	cfg := sess.Config(cl, sc.ver, ips...)
+	if sc.zbits != "" {
+		cfg.Compressor = gocql.SnappyCompressor{}
+	}
 	cfg.Timeout = 20 * time.Second
 	for _, r := range sc.script {
 		if r.fail == "t" {
@@ -561,6 +597,14 @@ func (g *sgen) base() scen {
 // finish classifies: a present-but-empty paging state anywhere (or as the caller's state) ⇒ sessx (KF-C15-1)
 func finish(sc scen) scen {
 	sc.op = "sess"
+	// compression: a third of the scenarios negotiate snappy, with a pattern of flagged / unflagged answers — chosen by a
+	// hash of the (PRNG-generated) scenario, so that the PRNG stream of the later tiers is what it was
+	sc.zbits = ""
+	h := fnv.New32a()
+	h.Write([]byte(sc.String()))
+	if v := h.Sum32(); v%3 == 0 {
+		sc.zbits = []string{"0", "1", "01", "10", "001", "110", "0110", "1001"}[(v/3)%8]
+	}
 	if sc.first != nil && len(sc.first) == 0 {
 		sc.op = "sessx"
 	}
